@@ -9,6 +9,7 @@ A case is a JSON-serialisable dict:
     left_im, right_im     2-D list of ints (mono) or 3-D list [band][row][col]
     left_msk, right_msk   None or 2-D list of ints (0 valid, 1 nodata, anything else invalid)
     disp                  {"kind": "scalar", "min": a, "max": b} | {"kind": "grid", "min": [[..]], "max": [[..]]}
+                          (attached with the real img_tools.add_disparity: a [min, max] pair, or a 2-band grid file)
     right_disp            None (derived by the machine: [-max, -min]) or the same two forms
     method, window, subpix
     row0, col0            first row / column coordinate of the datasets (ROI-style offset)
@@ -44,27 +45,49 @@ def make_dataset(case, side):
     if msk is not None:
         ds["msk"] = xr.DataArray(np.array(msk, dtype=np.int16), dims=["row", "col"])
     disp = case["disp"] if side == "left" else case.get("right_disp")
-    source = None
-    if disp is not None:
-        ds.coords["band_disp"] = ["min", "max"]
-        if disp["kind"] == "scalar":
-            # exactly what img_tools.add_disparity does for a [min, max] pair
-            arr = np.array([np.full((rows, cols), disp["min"]), np.full((rows, cols), disp["max"])])
-            source = [disp["min"], disp["max"]]
-        else:
-            # what add_disparity does for a grid file: float32 bands
-            arr = np.array([disp["min"], disp["max"]], dtype=np.float32)
-            source = "grid"
-        ds["disparity"] = xr.DataArray(arr, dims=["band_disp", "row", "col"])
-    ds.attrs = {
+    attrs = {
         "no_data_img": -9999,
         "valid_pixels": VALID,
         "no_data_mask": NODATA,
         "crs": None,
         "transform": None,
-        "disparity_source": source,
+        "disparity_source": None,
     }
+    ds.attrs = attrs
+    if disp is not None:
+        ds = _add_disparity(ds, disp, rows, cols)
     return ds
+
+
+_TMP = {}
+
+
+def _add_disparity(ds, disp, rows, cols):
+    """the real `pandora.img_tools.add_disparity`: a [min, max] pair, or a 2-band float32 grid file read by rasterio"""
+    import os
+    import tempfile
+    import warnings
+
+    from pandora.img_tools import add_disparity
+
+    if disp["kind"] == "scalar":
+        return add_disparity(ds, [disp["min"], disp["max"]], None)
+    import rasterio
+
+    if "dir" not in _TMP:
+        _TMP["dir"] = tempfile.mkdtemp(prefix="verif_c09_")
+        import atexit
+        import shutil
+
+        atexit.register(shutil.rmtree, _TMP["dir"], True)
+    path = os.path.join(_TMP["dir"], "grid.tif")
+    arr = np.array([disp["min"], disp["max"]], dtype=np.float32)
+    with warnings.catch_warnings():
+        warnings.simplefilter("ignore")
+        with rasterio.open(path, "w", driver="GTiff", height=rows, width=cols, count=2, dtype="float32") as dst:
+            dst.write(arr)
+        out = add_disparity(ds, path, None)
+    return out
 
 
 def mc_cfg(case):
